@@ -22,9 +22,9 @@ def run(c):
         c, "C01",
         explores=[("adv.%s" % c.tier, False), ("epic.%s" % c.tier, False)],
         prefer=("mac", "mac2", "expiry", "expiry2"),
-        budget=200000 if th else 10000,
+        budget=60000 if th else 10000,
         rand={"rand": 30000 if th else 1500, "maxhops": 4, "kinds": ["scion", "epic"]},
-        flags=["-variants", "3" if th else "1"],
+        flags=["-variants", "2" if th else "1"],
         nontrivial=lambda e: e["o"]["disp"] in ("forward", "deliver") or
         (e["o"]["disp"] == "slow" and e["o"]["code"] in (51, 52)))
     c.cov["rule"] = ("one event = one real packet through the real router, judged by C01Key; non-trivial = forwarded / "
